@@ -78,7 +78,7 @@ def arr_digest(a):
 
 
 def check_output_plotfile(ctx, sig_base, out_path, expect, minmax="rows", taste=True,
-                          taste_coords=True, rtol=None, dx_rtol=None):
+                          taste_coords=True, rtol=None, dx_rtol=None, bounds_rtol=0.0):
     """Compare a tool-written plotfile with the expected PlotModel.
 
     expect: PlotModel (fields, mesh, data).  minmax: 'true' -> rows must equal the
@@ -127,7 +127,9 @@ def check_output_plotfile(ctx, sig_base, out_path, expect, minmax="rows", taste=
             ephys = expect.box_phys(lv, eb)
             for d in range(expect.ndims):
                 for a, e_ in zip(p.boxes_phys[lv][ob][d], ephys[d]):
-                    if a != e_ and abs(a - e_) > 1e-12 * max(1.0, abs(e_)):
+                    # writers that COPY the mesh must reproduce the bounds exactly (repr round-trips);
+                    # only writers that compute them (chk2plt) get a tolerance
+                    if a != e_ and abs(a - e_) > bounds_rtol * max(1.0, abs(e_)):
                         bad("box-bounds", f"L{lv} box {box} dim {d}: bounds {p.boxes_phys[lv][ob][d]} vs {ephys[d]}")
             lo, hi, nc, arr = p.data[lv][ob]
             if (lo, hi) != box:
